@@ -15,14 +15,11 @@ mod sem {
 
     /// An unsolicited notification: observationally a spurious wake-up for the waiters.
     pub fn chaos_notify(s: &Semaphore, all: bool) {
-        if all {
-            s.cvar.notify_all()
-        } else {
-            s.cvar.notify_one()
-        }
+        verif_notify(s, all)
     }
-    pub fn count(s: &Semaphore) -> isize {
-        *s.lock.lock().unwrap()
+    /// The internal permit counter, when the private representation is still a plain `Mutex<isize>`.
+    pub fn count(s: &Semaphore) -> Option<isize> {
+        verif_count(s)
     }
 }
 
@@ -104,7 +101,7 @@ fn execute(p: &Program, obs: &std::sync::Arc<Observed>) {
             for s in steps {
                 match s {
                     Step::Pair => {
-                        if sem::count(&sem) <= 0 {
+                        if sem::count(&sem).map(|c| c <= 0).unwrap_or_else(|| holders.load(Ordering::SeqCst) >= capacity.load(Ordering::SeqCst)) {
                             obs.blocked_probably.store(true, Ordering::Relaxed);
                         }
                         let g = sem.access();
@@ -117,7 +114,7 @@ fn execute(p: &Program, obs: &std::sync::Arc<Observed>) {
                         drop(g);
                     }
                     Step::HandOff => {
-                        if sem::count(&sem) <= 0 {
+                        if sem::count(&sem).map(|c| c <= 0).unwrap_or_else(|| holders.load(Ordering::SeqCst) >= capacity.load(Ordering::SeqCst)) {
                             obs.blocked_probably.store(true, Ordering::Relaxed);
                         }
                         let g = sem.clone().access_owned();
@@ -149,13 +146,21 @@ fn execute(p: &Program, obs: &std::sync::Arc<Observed>) {
     for j in joins {
         j.join().unwrap();
     }
-    let fin = sem::count(&sem);
     let want = p.initial as isize + releases;
-    if fin != want {
-        obs.final_count_wrong.store(fin - want, Ordering::SeqCst);
-    }
     assert!(!obs.over_admission.load(Ordering::SeqCst), "more holders than permits");
-    assert!(fin == want, "permit count after all guards were dropped is {} instead of {}", fin, want);
+    if let Some(fin) = sem::count(&sem) {
+        if fin != want {
+            obs.final_count_wrong.store(fin - want, Ordering::SeqCst);
+        }
+        assert!(fin == want, "permit count after all guards were dropped is {} instead of {}", fin, want);
+    }
+    // black box: all `want` permits can be taken again without anybody releasing (a lost permit or a lost
+    // wake-up makes this block for ever, which shuttle reports as a deadlock)
+    let mut again = vec![];
+    for _ in 0..want.max(0) {
+        again.push(sem.clone().access_owned());
+    }
+    drop(again);
 }
 
 static SCHEDULES: AtomicU64 = AtomicU64::new(0);
@@ -307,7 +312,7 @@ pub fn check(tier: Tier) -> i32 {
     ctx.set_extra("schedules_with_a_probably_blocking_acquire", json!(BLOCKING_SCHEDULES.load(Ordering::Relaxed)));
     ctx.finish(
         "exploration",
-        "the real fclones/src/semaphore.rs compiled against shuttle's Mutex/Condvar/Arc (harness/build.rs swaps the import line and fails the build if it is not found). Generated programs: 0-2 initial permits, 2-4 threads with 1-3 steps each from {acquire..release on the same thread, acquire an owned guard and hand it to a dropper thread that releases it, release-only}, plus a chaos thread issuing 0-3 unsolicited notify_one/notify_all (observationally spurious wake-ups); programs are deadlock-free for the abstract counting semaphore by construction. Each program runs under 400 (quick) / 4000 (thorough) random or PCT(depth 3) schedules with a generated seed, and the 2-thread x <=2-step programs under exhaustive DFS (bounded at 200000 schedules). Oracle: at every return from acquire the number of holders is <= initial + releases-only so far; shuttle's deadlock detector never fires; after joining all threads the internal count equals initial + #release-only. evaluations = programs; schedules are counted in coverage.schedules_executed. Non-trivial = a program with a schedule in which an acquire found the count <= 0 (so it had to wait). End-to-end complement: the real binary hashes 120-150 identical 70 kB files with 128-thread pools under `prlimit --nofile=80..96` while every read of a tree file sleeps 25-35 ms (interposer): every file must be reported and no open may fail with EMFILE (the budget is nofile - 5 permits).",
+        "the real fclones/src/semaphore.rs compiled against shuttle's Mutex/Condvar/Arc (harness/build.rs swaps the import line and fails the build if it is not found; probes into private fields are generated only when those fields exist). Generated programs: 0-2 initial permits, 2-4 threads with 1-3 steps each from {acquire..release on the same thread, acquire an owned guard and hand it to a dropper thread that releases it, release-only}, plus a chaos thread issuing 0-3 unsolicited notify_one/notify_all (observationally spurious wake-ups); programs are deadlock-free for the abstract counting semaphore by construction. Each program runs under 400 (quick) / 4000 (thorough) random or PCT(depth 3) schedules with a generated seed, and the 2-thread x <=2-step programs under exhaustive DFS (bounded at 200000 schedules). Oracle: at every return from acquire the number of holders is <= initial + releases-only so far; shuttle's deadlock detector never fires; after joining all threads the internal count equals initial + #release-only (white-box probe, generated by build.rs only while the private representation is `lock: Mutex<isize>`), and all those permits can be acquired again without anybody releasing (black box; works for any representation). evaluations = programs; schedules are counted in coverage.schedules_executed. Non-trivial = a program with a schedule in which an acquire found the count <= 0 (so it had to wait). End-to-end complement: the real binary hashes 120-150 identical 70 kB files with 128-thread pools under `prlimit --nofile=80..96` while every read of a tree file sleeps 25-35 ms (interposer): every file must be reported and no open may fail with EMFILE (the budget is nofile - 5 permits).",
         &["shuttle's Condvar does not produce spurious wake-ups by itself; unsolicited notifications stand in for them", "the instrumented copy is textually the pinned file except for the import line and the removed unit tests"],
     )
 }
